@@ -109,6 +109,12 @@ PROGRAMS = {
     "same-base-arrays": '10 N$(1)="X":N(1)=2:Q$(2)="Y":Q(2)=3\n20 PRINT N$(1);N(1);Q$(2);Q(2):V$="A":V=1:V(1)=2:V$(1)="B"\n',
     "ifs": '10 IF A=1 THEN 100 ELSE IF A=2 THEN 200 ELSE 300\n20 ON A GOSUB 100,200,300\n100 RETURN\n200 RETURN\n300 RETURN\n',
 }
+# process-global interpreter state: a long listing followed by a deeply nested expression (refused as nested too deeply
+# in a fresh process) and by one just below the limit
+PROGRAMS["long-listing"] = "".join(f'{10 * (i + 1)} PRINT "LINE {i}";A{i % 9}\n' for i in range(300))
+PROGRAMS["deep-nesting-70"] = "10 A=" + "(" * 70 + "1" + ")" * 70 + "\n"
+PROGRAMS["deep-nesting-40"] = "10 A=" + "(" * 40 + "1" + ")" * 40 + "\n"
+PROGRAMS["deep-nesting-120"] = "10 A=" + "(" * 120 + "1" + ")" * 120 + "\n"
 OPTSETS = {
     "default": {},
     "full": {"initialize_vars": True, "filter_unused_linenum": True, "output_dependencies": True, "procname": "demo"},
@@ -120,6 +126,8 @@ def alphabet():
     a = []
     for pn in sorted(PROGRAMS):
         for on in sorted(OPTSETS):
+            if pn.startswith(("long-", "deep-")) and on != "default":
+                continue
             a.append(("conv", pn, on))
     # two inputs per decoder that differ in palette and pixel data (a decoder that remembers anything of the
     # first picture shows it on the second)
@@ -273,7 +281,7 @@ def run_histories(run, depth):
 def run_setorder(run, max_dev):
     install_seam()
     try:
-        progs = dict(PROGRAMS)
+        progs = {k: v for k, v in PROGRAMS.items() if not k.startswith(("long-", "deep-"))}
         # extra programs with 2..4 element sets of each kind
         progs["impl2"] = "10 A(1)=B(1)\n"
         progs["impl3"] = "10 A(1)=B(1)+C$(1)\n" if False else "10 A(1)=B(1)+C(1)\n"
